@@ -83,7 +83,7 @@ class Path:
             for ch in cond.children():
                 self._record(ch, d)
 
-    def known(self, cond):
+    def known(self, cond, semantic=False):
         """truth value of a condition that was already decided on this path (syntactic, after simplification), else None"""
         if not self.lits:
             return None
@@ -99,6 +99,8 @@ class Path:
             hit = self.lits.get(c.arg(0).get_id())
             if hit is not None:
                 return not hit[0]
+        if not semantic:
+            return None
         # semantic fall-back: is the condition settled by the path condition?  (cached; only mask-like booleans get here)
         i = c.get_id()
         if i in self.known_cache and (self.known_cache[i][0] is not None or self.known_cache[i][2] == len(self.pc)):
@@ -211,17 +213,17 @@ def rv(x):
     raise Unsupported(f'cannot lift {type(x).__name__} to a z3 term')
 
 
-def _known(c):
+def _known(c, semantic=False):
     p = Ctx.path
     if p is None or not p.lits:
         return None
-    return p.known(c)
+    return p.known(c, semantic)
 
 
 def to_real(v):
     if is_sym(v):
         if z3.is_bool(v):
-            k = _known(v)
+            k = _known(v, True)        # binary masks: settle them semantically once their bits were decided
             if k is not None:
                 return 1.0 if k else 0.0
             return z3.If(v, z3.RealVal(1), z3.RealVal(0))
@@ -324,7 +326,11 @@ def s_mul(a, b):
         return a * b
     ia, ib = _indicator(a), _indicator(b)
     if ia is not None and ib is not None:             # product of two binary masks = mask of the conjunction
-        return s_ite(z3.And(ia, ib), 1.0, 0.0)
+        c = z3.And(ia, ib)
+        k = _known(c, True)
+        if k is not None:
+            return 1.0 if k else 0.0
+        return z3.If(c, z3.RealVal(1), z3.RealVal(0))
     # keep exact zeros / ones out of the formulas (big win for the mask algebra)
     for x, y in ((a, b), (b, a)):
         if not is_sym(x):
